@@ -30,6 +30,8 @@ func scenarios(tier string) []sched.Scenario {
 	specs := []oxc.ScenarioSpec{
 		{Name: "spurious-failover", Fault: "spurious-failover", Clients: 1, PerCli: 1, SyncData: true},
 		{Name: "lost-newterm-response", Fault: "lost-newterm-response", Clients: 2, PerCli: 1, SyncData: true},
+		{Name: "spurious-failover-lossy", Fault: "spurious-failover-lossy", Clients: 1, PerCli: 1, SyncData: true, LossyRPC: 1},
+		{Name: "swap-lossy", Fault: "swap-lossy", Clients: 1, PerCli: 1, SyncData: true, LossyRPC: 1},
 		{Name: "leader-crash", Fault: "leader-crash", Clients: 1, PerCli: 1, SyncData: true},
 		{Name: "coord-crash", Fault: "coord-crash", Clients: 1, PerCli: 1, SyncData: true},
 		{Name: "lost-become-leader-response", Fault: "lost-become-leader-response", Clients: 1, PerCli: 1, SyncData: true},
